@@ -15,6 +15,7 @@ Valid == { <<NOOP>>, <<MSS, 4>> \o P(2, 1), <<WS, 3, 7>>, <<SACKP, 2>>, <<TS, 10
            <<SACK, 10>> \o P(8, 5), <<SACK, 18>> \o P(16, 6), <<SACK, 26>> \o P(24, 7), <<SACK, 34>> \o P(32, 8) }
 Odd == { <<END>>, <<MSS, 3, 1, 2>>, <<MSS, 5, 1, 2, 3>>, <<WS, 2, 1>>, <<WS, 4, 1, 2>>, <<SACKP, 3, 0>>, <<SACKP, 0>>, <<TS, 9>> \o P(8, 3),
          <<SACK, 9>> \o P(8, 5), <<SACK, 11>> \o P(9, 5), <<SACK, 17>> \o P(16, 5), <<SACK, 35>> \o P(33, 5), <<SACK, 2>>,
+         <<WS, 200, 7>>, <<MSS, 77, 1, 2>>, <<TS, 255>> \o P(8, 3), <<SACKP, 200>>, <<MSS, 0>>, <<WS, 0, 1>>, <<SACK, 200>> \o P(8, 5),
          <<SACK, 14>> \o P(12, 5), <<SACK, 22>> \o P(20, 5), <<SACK, 30>> \o P(28, 5), <<SACK, 6>> \o P(4, 5), <<SACK, 12>> \o P(10, 5), <<9, 4, 0, 0>>, <<255>>, <<6, 1>> }
 Tokens == Valid \cup Odd
 RECURSIVE Cat(_)
@@ -31,6 +32,9 @@ Lists == UNION {[1..n -> Shapes] : n \in 0..MaxElems}
          \cup {[i \in 1..(3 + k) |-> IF i <= 3 THEN <<TS, P(8, 9)>> ELSE <<NOOP, <<>>>>] : k \in 0..13}
          \cup {[i \in 1..(1 + k) |-> IF i = 1 THEN <<SACK, P(32, 1)>> ELSE <<MSS, <<0, 0>>>>] : k \in 0..3}
          \cup {[i \in 1..k |-> <<WS, <<i>>>>] : k \in 12..15}
+         \* more elements than bytes fit: the required size is a number of bytes, not of elements
+         \cup {[i \in 1..k |-> <<NOOP, <<>>>>] : k \in {39, 40, 41, 42, 50}}
+         \cup {[i \in 1..(1 + k) |-> IF i = 1 THEN <<MSS, <<5, 180>>>> ELSE <<NOOP, <<>>>>] : k \in {36, 37, 40, 41}}
 
 VARIABLES kind, area, elems
 vars == <<kind, area, elems>>
